@@ -410,6 +410,11 @@ class Impl:
                                 a *= 3.0
                                 a += 0.125
                         d.pop("m2", None)
+        elif o == "sq.seqx" and op.get("flags") and isinstance(r, (list, tuple)) and r and isinstance(r[-1], list):
+            for per_channel in r[-1]:
+                for fl in per_channel:
+                    if isinstance(fl, list):
+                        fl[:] = [4, 4, 4, 4, 4]
         elif o in ("bp.desc", "el.desc", "sq.desc"):
             pass        # (descriptions are turned into protocol values before they reach this point; see the _raw variants)
 
